@@ -4,6 +4,7 @@ import re
 import struct
 import sys
 from decimal import Decimal
+from fractions import Fraction
 
 from .sx import Sym, d_str
 
@@ -16,7 +17,15 @@ RULE = ('doubles by bit pattern: every power of ten 1e-323..1e308 and its neighb
         'OpenMetrics parser; several histograms with different layouts and label sets in one process (bucket lines, per-bucket '
         'exemplars, two scrapes); multiprocess merge of workers, label sets and restarts with DIFFERENT bucket layouts (6 fixed + '
         'seeded random scenarios: different bounds, different bucket counts, shared and disjoint label sets, both file orders, '
-        'accumulated or not, collect()): every merged le = the spelling of that bound in the worker\'s own exposition, with its count')
+        'accumulated or not, collect()): every merged le = the spelling of that bound in the worker\'s own exposition, with its count; '
+        'histogram bounds GIVEN in every type/spelling the constructor takes (float() of: float, float subclass with its own repr, '
+        '__float__/__index__ objects, int, bool, Decimal, Fraction, bytes/bytearray, and text: repr, %.17g/%e/%E, exact decimal '
+        'expansion, integer text, underscores, leading +/zeros, trailing zeros, surrounding whitespace, short/long/upper-case '
+        'exponents, .5 / 5. forms, Arabic-Indic and full-width digits; inf/Inf/INF/Infinity/+Inf... for an explicit last bound, '
+        '-inf first): every spelling of 41 pool doubles alone in a histogram (labelled and not), seeded random layouts with a '
+        'spelling per bound, and the multiprocess scenarios again with spelled bounds (2 fixed + seeded random); every exposed le '
+        '(collect(), bucket lines of both expositions, worker file keys, merge) = the rendering of the DOUBLE the bound denotes, '
+        'and one double has ONE label string over the whole run whatever way it was given and wherever it was exposed')
 TRUSTED = ['CPython repr(float) (shortest round-trip repr; shape D{7,}.D+ for 1e6<=d<1e16 is re-validated on every generated case)',
            'CPython float(str) used by the direct oracle']
 ASSUMPTIONS = ['float(repr(x)) == x and float() depends only on the denoted decimal value (CPython facts; checked per case, not proved)']
@@ -43,7 +52,21 @@ def run(ctx, rep, corpus):
     merges = list(MERGES)
     del MERGES[:]
     rep.count('multiprocess_merges_held_against_model', len(merges))
+    hists = list(HISTS)
+    del HISTS[:]
+    rep.count('spelled_histograms_held_against_model', len(hists))
     if ctx.model is not None:
+        # the instrumentation class on bounds GIVEN in any type/spelling: model/LeLabels.v hist_le_samples on the doubles
+        for case, layout, counts, got in hists:
+            mres = ctx.model.call('histle', [fclass(b) for b in layout], counts)
+            if mres[0] == 'ok':
+                mobs = [(d_str(le), int(n)) for le, n in mres[1]]
+            else:
+                mobs = str(mres[1])
+            if mobs != got:
+                rep.disagree(case, got, mobs)
+            else:
+                rep.traces += 1
         for case, acc, sets, got in merges:
             mout = ctx.model.call('mple', acc, [(p, [(fclass(b), n) for b, n in bs]) for p, bs in sets])
             mobs = [(d_str(p), [(d_str(le), int(n)) for le, n in out]) for p, out in mout]
@@ -133,6 +156,262 @@ MERGES = []          # (case, accumulate, [(label set, [(bound, count)])], [(lab
 def _chk(b, tok):
     SEEN_TOKENS.append((b, tok))
     return direct(b, tok)
+
+
+# ---------------------------------------------------------------------------------------------------------------
+# le labels are label STRINGS: one number has one label string, however the bound was given (float, int, text in any
+# spelling float() takes, Decimal, Fraction ...), on whichever path it is exposed (in-process, worker file key, merge)
+# ---------------------------------------------------------------------------------------------------------------
+
+LE_OF = {}           # double as bits -> (le, how that bound was given / where it was exposed), first sighting
+HISTS = []           # (case, [bound as given -> double], [count per bucket], outcome) of every spelled histogram; run()
+                     # holds them against the extracted hist_le_samples
+
+
+def _chk_le(d, le, how):
+    """direct oracle for one exposed le label of the bound d (a double)"""
+    r = _chk(bits(d), le)
+    if r:
+        return 'bound %s: %s' % (how, r)
+    first = LE_OF.setdefault(bits(d), (le, how))
+    if first[0] != le:
+        return ('one number, two label strings: bound %r %s has le=%r, but %s it has le=%r'
+                % (d, how, le, first[1], first[0]))
+    return None
+
+
+class FancyFloat(float):
+    """a float subclass with its own repr/str (as numpy.float64 has): float(x) is the plain double"""
+    def __repr__(self):
+        return 'FancyFloat<%s>' % float.__repr__(self)
+
+    def __str__(self):
+        return 'fancy'
+
+
+class HasFloat(object):
+    def __init__(self, d):
+        self.d = d
+
+    def __float__(self):
+        return self.d
+
+    def __repr__(self):
+        return 'HasFloat(%s)' % float.__repr__(self.d)
+
+
+class HasIndex(object):
+    def __init__(self, i):
+        self.i = i
+
+    def __index__(self):
+        return self.i
+
+    def __repr__(self):
+        return 'HasIndex(%d)' % self.i
+
+
+ARABIC_INDIC = {ord('0') + i: 0x0660 + i for i in range(10)}
+FULLWIDTH = {ord('0') + i: 0xFF10 + i for i in range(10)}
+
+
+def spellings(d):
+    """Everything Histogram(buckets=[...]) takes for the double d (the constructor applies float() to each bound):
+    list of (kind, object), every one re-validated here to denote exactly d.  The first is d itself."""
+    out = [('float', d), ('float subclass', FancyFloat(d)), ('object with __float__', HasFloat(d))]
+    texts = []
+    if d != d:
+        return out[:1]
+    if abs(d) == math.inf:
+        sign = '-' if d < 0 else ''
+        texts = [sign + t for t in ('inf', 'Inf', 'INF', 'Infinity', 'infinity', 'INFINITY', 'iNf')]
+        if d > 0:
+            texts += ['+Inf', '+inf', '+Infinity', '+INF']
+        texts += [' ' + texts[0] + ' ', '\t' + texts[3] + '\n']
+        out += [('Decimal', Decimal(sign + 'Infinity')), ('bytes', (sign + 'inf').encode()), ('bytes', (sign + 'Infinity').encode())]
+    else:
+        r = repr(d)
+        neg = r.startswith('-')
+        sign, body = ('-', r[1:]) if neg else ('', r)
+        t = Decimal(r).normalize().as_tuple()
+        digs = ''.join(map(str, t.digits))
+        exp10 = len(digs) - 1 + t.exponent
+        mant = digs[0] + ('.' + digs[1:] if len(digs) > 1 else '')
+        texts = [r, '%.17g' % d, '%.17e' % d, '%.16E' % d, '%r' % d + ('0' * 3 if 'e' not in r else ''), r.upper(),
+                 ' ' + r + ' ', '\t' + r + '\n', r + '\r\n', sign + '00' + body, format(Decimal(d), 'f'), str(Decimal(d)),
+                 sign + '%se%d' % (mant, exp10), sign + '%sE%d' % (mant, exp10), sign + '%se%+d' % (mant, exp10),
+                 sign + '%se%+04d' % (mant, exp10), sign + '%se%d' % (digs, t.exponent),
+                 sign + '%s0e%d' % (digs, t.exponent - 1), sign + '0.%se%d' % (digs, exp10 + 1),
+                 r.translate(ARABIC_INDIC), r.translate(FULLWIDTH)]
+        if not neg:
+            texts += ['+' + r, ' +' + r]
+        if body.startswith('0.'):
+            texts.append(sign + body[1:])
+        if body.endswith('.0'):
+            texts += [sign + body[:-1], sign + body[:-2]]
+        if d == int(d):
+            i = int(d)
+            texts += [str(i), format(i, '_'), str(i) + '.', str(i) + '.000', format(i, ',').replace(',', '_') + '.0',
+                      str(i).translate(ARABIC_INDIC)]
+            out += [('int', i), ('object with __index__', HasIndex(i)), ('Decimal', Decimal(i)), ('Fraction', Fraction(i))]
+            if i in (0, 1):
+                out.append(('bool', bool(i)))
+        out += [('Decimal', Decimal(r)), ('Decimal', Decimal(d)), ('Decimal', Decimal(sign + '%sE%+d' % (mant, exp10))),
+                ('Fraction', Fraction(d)), ('Fraction', Fraction(Decimal(r))), ('bytes', r.encode()),
+                ('bytes', ('%.17e' % d).encode()), ('bytearray', bytearray(r.encode()))]
+    seen = set()
+    for t in texts:
+        if t not in seen:
+            seen.add(t)
+            out.append(('str', t))
+    good = []
+    for kind, o in out:
+        try:
+            if bits(float(o)) == bits(d):
+                good.append((kind, o))
+        except (ValueError, OverflowError, TypeError):
+            pass
+    return good
+
+
+def _given(ko):
+    kind, o = ko
+    return 'given as the %s %r' % (kind, o)
+
+
+SPELL_POOL = [0.0, -0.0, 1.0, -1.0, 0.5, 0.25, 0.005, 0.1, 2.5, 10.0, 1000.0, 100000.0, 999999.0, 999999.5, 1e6, 1000001.0,
+              1234567.125, 2.5e6, 1e7, 123456789.0, 1e10, 1.5e10, 123456789012.0, 1e15, 9007199254740992.0,
+              9999999999999998.0, 1e16, 1.2e16, 1e21, 1e22, 1e23, 1e100, 5e-324, 5e-05, 1e-07, 0.30000000000000004,
+              -1e6, -2.5e6, -1.5e10, float('inf'), float('-inf')]
+
+
+def _expose(given, labelled, xs):
+    """One Histogram built from the bounds as given, observed with xs: the (le, value) pairs of collect() and the le
+    labels of its bucket lines in both expositions (None when a line is missing); 'ValueError' / 'EXC:<class>' when the
+    constructor raises."""
+    from prometheus_client import CollectorRegistry, Histogram
+    from prometheus_client.exposition import generate_latest
+    from prometheus_client.openmetrics.exposition import generate_latest as om_latest
+    reg = CollectorRegistry()
+    try:
+        h = Histogram('hs', 'help', ['path'] if labelled else [], buckets=given, registry=reg)
+    except ValueError:
+        return 'ValueError'
+    child = h.labels('/a') if labelled else h
+    for x in xs:
+        child.observe(x)
+    pairs = [(s.labels['le'], s.value) for f in reg.collect() for s in f.samples if s.name == 'hs_bucket']
+    pat = r'^hs_bucket\{le="([^"]*)"%s\} \S+$' % (',path="/a"' if labelled else '')
+    return dict(collect=pairs, text=re.findall(pat, generate_latest(reg).decode(), re.M),
+                om=re.findall(pat, om_latest(reg).decode(), re.M))
+
+
+def _spelled_hist_check(spec, labelled, xs):
+    """spec: [(double, (kind, bound as given))], the doubles ascending, an explicit +Inf allowed last.  Oracle: the
+    histogram exposes, in order, one bucket per bound (+Inf added when not given), each le the canonical rendering of
+    the DOUBLE the bound denotes (direct()), the same string as any other way of giving that number gets, on collect()
+    and on the bucket lines of both expositions, with the cumulative count of the observations."""
+    bad = []
+    inf = float('inf')
+    layout = [d for d, _ko in spec]
+    given = [ko[1] for _d, ko in spec]
+    how = {bits(d): ko for d, ko in spec}
+    full = layout if layout and layout[-1] == inf else layout + [inf]
+    counts = [0] * len(full)
+    for x in xs:
+        counts[full.index(_bucket_of(full, x))] += 1
+    case = dict(site='histogram built from bounds as given', labelled=labelled,
+                bounds=[[kind, repr(o)] for _d, (kind, o) in spec], observed=xs)
+    try:
+        got = _expose(given, labelled, xs)
+    except Exception as e:
+        return ['histogram-le-spelled: bounds %s: raised %s: %s'
+                % (', '.join(_given(ko) for _d, ko in spec), type(e).__name__, e)]
+    if got == 'ValueError':
+        HISTS.append((case, layout, counts, 'ValueError'))
+        if len(full) >= 2:
+            bad.append('histogram-le-spelled: bounds %s (ascending, %d buckets) are refused with ValueError'
+                       % (', '.join(_given(ko) for _d, ko in spec), len(full)))
+        return bad
+    HISTS.append((case, layout, counts, [(le, int(v) if v == int(v) else v) for le, v in got['collect']]))
+    if len(got['collect']) != len(full):
+        return ['histogram-le-spelled: bounds %s: %d buckets exposed for %d bounds (le = %r)'
+                % (', '.join(_given(ko) for _d, ko in spec), len(got['collect']), len(full), [le for le, _v in got['collect']])]
+    acc = 0.0
+    for i, (d, (le, v)) in enumerate(zip(full, got['collect'])):
+        acc += counts[i]
+        hw = _given(how[bits(d)]) if bits(d) in how else 'added by the constructor'
+        r = _chk_le(d, le, hw + ', exposed in-process')
+        if r:
+            bad.append('histogram-le-spelled: %s' % r)
+        if v != acc:
+            bad.append('histogram-le-spelled: bound %r %s: le=%r shows %r, the cumulative count of that bound is %r'
+                       % (d, hw, le, v, acc))
+    for site in ('text', 'om'):
+        if got[site] != [le for le, _v in got['collect']]:
+            bad.append('%s-bucket-le-spelled: bounds %s: bucket lines carry le = %r, collect() gives %r'
+                       % (site, ', '.join(_given(ko) for _d, ko in spec), got[site], [le for le, _v in got['collect']]))
+    return bad
+
+
+def bound_spelling_check(rng, n_random=40):
+    """Histogram bounds in every type and spelling the constructor takes."""
+    bad = []
+    inf = float('inf')
+    n = 0
+    # every spelling of every pool value, alone in its histogram (labelled and not, alternating), with the +Inf bound
+    # implicit, or explicit in a rotating spelling
+    infs = spellings(inf)
+    for d in SPELL_POOL:
+        for k, ko in enumerate(spellings(d)):
+            if d == inf:
+                spec = [(1.0, spellings(1.0)[k % 3]), (d, ko)]
+            elif k % 3 == 2:
+                spec = [(d, ko), (inf, infs[n % len(infs)])]
+            else:
+                spec = [(d, ko)]
+            n += 1
+            xs = [d, d, 1e300] if math.isfinite(d) else [0.0, 2.0]
+            bad += _spelled_hist_check(spec, k % 2 == 1, xs)
+            if len(bad) > 60:
+                return bad
+    # whole layouts, each bound in a spelling of its own
+    finite = [d for d in SPELL_POOL if math.isfinite(d) and d != 0.0]
+    for _ in range(n_random):
+        layout = sorted(rng.sample(finite, rng.randrange(1, 8)))
+        if rng.random() < 0.2:
+            layout = [x for x in layout if x < 0] + [rng.choice((0.0, -0.0))] + [x for x in layout if x > 0]
+        if rng.random() < 0.15:
+            layout = [-inf] + layout
+        if rng.random() < 0.4:
+            layout = layout + [inf]
+        spec = [(d, rng.choice(spellings(d))) for d in layout]
+        xs = [rng.choice(finite) * rng.choice((0.5, 1.0, 2.0)) for _ in range(rng.randrange(0, 6))]
+        bad += _spelled_hist_check(spec, rng.random() < 0.5, xs)
+        if len(bad) > 60:
+            return bad
+    # fewer than two buckets: refused (ValueError), in every spelling of the lone +Inf
+    for spec in [[]] + [[(inf, ko)] for ko in infs]:
+        if _expose([ko[1] for _d, ko in spec], False, []) != 'ValueError':
+            bad.append('histogram-le-spelled: bounds %r give fewer than two buckets and are accepted' % (spec,))
+        HISTS.append((dict(site='histogram built from bounds as given', bounds=[[k, repr(o)] for _d, (k, o) in spec]),
+                      [d for d, _ko in spec], [0] * len(spec), 'ValueError'))
+    return bad
+
+
+def spelled_scenario(rng):
+    """random_scenario with every worker's bounds given in a type/spelling of their own (a worker configured from text,
+    another from literals), sometimes with an explicit last +Inf or a first -Inf"""
+    labelled, incs = random_scenario(rng)
+    out = []
+    for pid, layout, obs in incs:
+        if rng.random() < 0.15:
+            layout = [float('-inf')] + layout
+        src = [rng.choice(spellings(b)) for b in layout]
+        if rng.random() < 0.4:
+            src.append(rng.choice(spellings(float('inf'))))
+        out.append((pid, layout, obs, src))
+    return labelled, out
 
 
 SITE_VALUES = [0.0, -0.0, 1.0, 2.5, 1e6, 2.5e6, 1e10, 1.5e10, 123456789012.0, 1e15, 9007199254740993.0, 1e16, 1e22,
@@ -255,6 +534,19 @@ FIXED_SCENARIOS = [
 ]
 
 
+# the same, the bounds GIVEN as text / ints / Decimals (4th element: (kind, bound as given) per bound, possibly one more
+# for an explicit +Inf): a worker configured from a file or the environment next to one configured from literals
+SPELLED_SCENARIOS = [
+    (True, [(1, [0.5, 1e6, 2.5e6, 1.5e10], {'/a': [0.1, 2e6, 1e9]},
+             [('str', '0.50'), ('str', '1000000'), ('str', '2.5e6'), ('str', '15000000000'), ('str', 'inf')]),
+            (2, [0.5, 1e6, 2.5e6, 1.5e10], {'/a': [0.2, 3e6], '/b': [1e6]},
+             [('float', 0.5), ('int', 1000000), ('float', 2.5e6), ('float', 1.5e10)])]),
+    (False, [(1, [1.0, 1e3, 1e7], {None: [0.5, 5.0, 1e8]}, [('str', ' 1 '), ('str', '1e3'), ('str', '1_000_0000')]),
+             (1, [1.0, 1e3, 1e7], {None: [2.0]}, [('bool', True), ('str', '+1000'), ('Decimal', Decimal('1E+7')), ('str', '+Inf')]),
+             (2, [1.0, 1e16], {None: [1e15, 1e17]}, [('str', '1'), ('Fraction', Fraction(10 ** 16)), ('str', 'Infinity')])]),
+]
+
+
 def random_scenario(rng):
     labelled = rng.random() < 0.8
     incs = []
@@ -298,7 +590,8 @@ def layout_scenario_check(labelled, incs):
     old_cls = values.ValueClass
     opened = []
     pid_uses = {}
-    for pid, _l, _o in incs:
+    incs = [tuple(inc) + (None,) * (4 - len(inc)) for inc in incs]
+    for pid, _l, _o, _s in incs:
         pid_uses[pid] = pid_uses.get(pid, 0) + 1
     try:
         os.environ['PROMETHEUS_MULTIPROC_DIR'] = d
@@ -307,10 +600,16 @@ def layout_scenario_check(labelled, incs):
         want = {}
         spelling = {}
         owners = {}
-        for n, (pid, layout, obs) in enumerate(incs):
+        for n, (pid, layout, obs, src) in enumerate(incs):
             values.ValueClass = values.MultiProcessValue(lambda pid=pid: pid)
             reg = CollectorRegistry()
-            h = Histogram('h', 'help', ['path'] if labelled else [], buckets=list(layout), registry=reg)
+            # src: the bounds as GIVEN to the constructor (any type/spelling float() takes; possibly with an explicit
+            # last +Inf), layout: the doubles they denote
+            given = [b for _k, b in src] if src is not None else list(layout)
+            how = dict(zip(layout, src)) if src is not None else {}
+            if src is not None and len(src) > len(layout):
+                how[inf] = src[-1]
+            h = Histogram('h', 'help', ['path'] if labelled else [], buckets=given, registry=reg)
             full = list(layout) + [inf]
             for p, xs in obs.items():
                 child = h.labels(p) if labelled else h
@@ -335,7 +634,7 @@ def layout_scenario_check(labelled, incs):
                     continue
                 acc = 0.0
                 for b, (le, v) in zip(full, pairs):
-                    r = _chk(bits(b), le)
+                    r = _chk_le(b, le, _given(how.get(b, ('float', b))) + ', exposed in-process by a worker')
                     if r:
                         bad.append('histogram-le: %s, layout %r: %s' % (_lkey(p), layout, r))
                     spelling.setdefault(p, {})[b] = le
@@ -404,7 +703,9 @@ def layout_scenario_check(labelled, incs):
                                    % (tag, _lkey(p), le, b, g[le], 'cumulative count' if accumulate else 'count', v))
                 for le in g:
                     if le in exp:
-                        SEEN_TOKENS.append((bits(exp[le][0]), le))
+                        r = _chk_le(exp[le][0], le, 'merged by the multiprocess collector (%s)' % tag)
+                        if r:
+                            bad.append('multiprocess-le: %s: %s: %s' % (tag, _lkey(p), r))
                         continue
                     try:
                         b = float(le)
@@ -486,7 +787,7 @@ def multiprocess_spelling_check():
                 seen = {}
                 for le, v in pairs:
                     b = float(le)
-                    r = _chk(bits(b), le)
+                    r = _chk_le(b, le, 'merged by the multiprocess collector from files spelling it %s' % '/'.join(sps.get(b, ['?'])))
                     if r:
                         bad.append('multiprocess-le: p=%s: %s' % (p, r))
                     if b in seen:
@@ -514,9 +815,12 @@ def multiprocess_le_check(rng=None, n_random=40):
     import random
     rng = rng or random.Random(13)
     bad = []
-    for labelled, incs in FIXED_SCENARIOS + [random_scenario(rng) for _ in range(n_random)]:
+    scenarios = FIXED_SCENARIOS + [random_scenario(rng) for _ in range(n_random)]
+    scenarios += SPELLED_SCENARIOS + [spelled_scenario(rng) for _ in range(n_random)]
+    for labelled, incs in scenarios:
         for v in layout_scenario_check(labelled, incs):
-            bad.append('%s [scenario labelled=%r workers (pid, bounds, observations per label value)=%r]' % (v, labelled, incs))
+            bad.append('%s [scenario labelled=%r workers (pid, bounds, observations per label value[, bounds as given])=%r]'
+                       % (v, labelled, incs))
         if len(bad) > 40:
             break
     return bad + multiprocess_spelling_check()
@@ -581,7 +885,7 @@ def inprocess_layout_check(rng):
                 acc = 0.0
                 for b, (le, v, ex) in zip(full, pairs):
                     acc += st['counts'].get(b, 0.0)
-                    r = _chk(bits(b), le)
+                    r = _chk_le(b, le, 'given as the float %r, exposed in-process' % b)
                     if r:
                         bad.append('histogram-le: h%d %s layout %r: %s' % (k, _lkey(p), layout, r))
                         continue
@@ -712,7 +1016,7 @@ def label_passthrough_check():
     return bad
 
 
-N_SITES = 32
+N_SITES = 35
 
 
 def site_check(seed=0, n_random=40):
@@ -733,12 +1037,16 @@ def site_check(seed=0, n_random=40):
                 if tok is None:
                     out.append('%s: rendering of %r not found in the output' % (site, d))
                     continue
-                r = _chk(bits(d), tok)
+                r = (_chk_le(d, tok, 'given as the float %r, exposed in-process' % d) if site == 'histogram-le'
+                     else _chk(bits(d), tok))
                 if r:
                     out.append('%s: %s' % (site, r))
         return out
+    LE_OF.clear()
+    del HISTS[:]
     bad = guarded('multiprocess-le', multiprocess_le_check, rng, n_random)
     bad += guarded('histogram-le', inprocess_layout_check, rng)
+    bad += guarded('histogram-le-spelled', bound_spelling_check, rng, n_random)
     bad += guarded('created', created_check, rng)
     bad += guarded('label-passthrough', label_passthrough_check)
     bad += guarded('site-tokens', tokens)
